@@ -374,7 +374,8 @@ def check(tier, seed, procs):
             'keys are interchangeable and lookups are enumerated as multisets (every callback order is explored)',
             'a value exactly `lifetime` old is not "older than its lifetime"; a lookup that never completes is counted but not judged',
         ],
-        'vacuous': f'never exercised: {missing}' if missing else None,
+        # a reported violation is itself evidence that the run was not vacuous (a broken implementation may skip a feature)
+        'vacuous': f'never exercised: {missing}' if missing and not violations else None,
     }
 
 
